@@ -1,4 +1,5 @@
 import SFV.Lemmas.GraphOps
+import SFV.Lemmas.Mapper
 /-! # C20 — provenance graph operations keep the graph consistent
 
 `DirectedGraph` / `DirectedAcyclicGraph` of `streamflow/recovery/utils.py` (model: `SFV/Model/Graph.lean`,
@@ -183,5 +184,47 @@ example : ¬ Closure true (run [.add 0 (some 1), .add 0 (some 2)]) [1] 0 := by
 /-- `replace` on a node with a self-loop: the accepted case of `replace_preserves_edges` is inhabited -/
 example : (0 ∈ (run [.add 0 (some 0), .add 0 (some 1)]).sk) ∧ (7 ∉ (run [.add 0 (some 0), .add 0 (some 1)]).sk) := by
   decide
+
+/-! ### `GraphMapper`: the dictionaries stay in step with the graphs (`SFV/Model/Mapper.lean`) -/
+
+section Mapper
+open SFV.Mapper
+
+/-- **`mapper_consistent`**: `move_token_to_root` and `replace_token` keep the mapper consistent — the nodes of `dag_tokens`, the
+keys of `token_instances`, of `token_availability` and the tokens listed in `port_tokens` are the same set, no listed port is
+left without tokens or outside `dcg_ports`, a token is listed under one port, both graphs keep their representation invariant —
+for every token, port, replacement and every consistent mapper (a `replace_token` that raises changes nothing). -/
+theorem mapper_consistent (m : M) (h : m.consistent) :
+    (∀ t, (m.moveToRoot t).consistent) ∧
+    (∀ port new key a m', m.replaceToken port new key a = some m' → m'.consistent) :=
+  ⟨fun t => moveToRoot_consistent m h t, fun port new key a m' hr => replaceToken_consistent m m' h port new key a hr⟩
+
+theorem mapper_empty_consistent : M.empty.consistent :=
+  ⟨by simp [M.empty, G.empty, Dict.keys], by simp [M.empty, Dict.keys], by simp [M.empty, Dict.keys, M.tokensOf],
+   by simp [M.empty], by simp [M.empty], by simp [M.empty], by simp [M.empty, Dict.keys], inv_empty, inv_empty⟩
+
+/-- `add` of a single token that is new to the mapper (no equal token in its port) keeps it consistent … -/
+theorem mapper_add_single_consistent (m : M) (h : m.consistent) (a : Info) (hfresh : a.tok ∉ m.inst.keys)
+    (hne : m.getEqual a.port a.key = none) : ∃ m', m.add a none = some m' ∧ m'.consistent :=
+  add_single_consistent m h a hfresh hne
+
+/-- … so consistent mappers with tokens exist (`mapper_consistent` is not vacuous): one token, then a second one in the same port -/
+example : ∃ m, (M.empty.add ⟨0, 100, 1, 0, true⟩ none).bind (fun m => m.add ⟨0, 100, 2, 1, false⟩ none) = some m ∧ m.consistent ∧
+    m.inst.keys = [1, 2] := by
+  obtain ⟨m1, h1, c1⟩ := mapper_add_single_consistent M.empty mapper_empty_consistent ⟨0, 100, 1, 0, true⟩ (by decide) (by decide)
+  have k1 : m1.inst.keys = [1] ∧ m1.getEqual 0 1 = none := by
+    have : (M.empty.add ⟨0, 100, 1, 0, true⟩ none).map (fun m => (m.inst.keys, m.getEqual 0 1)) = some ([1], none) := by decide
+    rw [h1] at this
+    simp only [Option.map_some, Option.some.injEq, Prod.mk.injEq] at this
+    exact this
+  obtain ⟨m2, h2, c2⟩ := mapper_add_single_consistent m1 c1 ⟨0, 100, 2, 1, false⟩ (by rw [k1.1]; decide) k1.2
+  refine ⟨m2, by rw [h1]; exact h2, c2, ?_⟩
+  have : ((M.empty.add ⟨0, 100, 1, 0, true⟩ none).bind (fun m => m.add ⟨0, 100, 2, 1, false⟩ none)).map (·.inst.keys) = some [1, 2] := by
+    decide
+  rw [h1] at this
+  simp only [Option.bind_some, h2, Option.map_some, Option.some.injEq] at this
+  exact this
+
+end Mapper
 
 end SFV.C20
